@@ -1,5 +1,5 @@
 """Texts for MANIFEST.json (what each check claims and on what it rests)."""
-HOOK_COMMITS = ["c7740f4", "35fc13a"]
+HOOK_COMMITS = ["c7740f4", "35fc13a", "ef53ba1"]
 
 COMMON_NOTE = ("Trusted: Lean 4.33 kernel (axioms reported by the per-run audit: propext, Quot.sound, Classical.choice at most; no sorry / "
                "native_decide / own axioms); the hand-written Lean model of rosmar is tied to /repo only by the correspondence check "
@@ -89,6 +89,14 @@ CLAIMS = {
               "lifecycle scenarios on both bucket kinds compare the done state of every feed after every event with the model and probe that "
               "surviving feeds still receive events.",
               note="Partial: goroutine liveness is observed, not proved."),
+ "C20": claim("Proved on the shutdown model (atomic actions between instrumentation points): under every sequence of actions nothing panics and "
+              "no expiry timer is armed on a closed store; if only refused calls follow the shutdown no feed goroutine is left; a lock ranking "
+              "rising along every edge of the lock-order graph REGENERATED from the source excludes deadlock among all threads but the timer "
+              "callback (general theorem + decide over the extracted edges). Runtime facts are observed: 40 forced schedules, one child process "
+              "each, place Close / CloseAndDelete / DropDataStore against writers, feed start, feed delivery and the timer callback and compare "
+              "panic / hang / leaked goroutine / other-bucket-usable with the model's verdict. Two defects found this way were repaired in /repo "
+              "(fix: 526ea24, 1734add); the third (feed registration completing after the shutdown leaks its goroutine) is an open known finding.",
+              note="Partial: goroutine exit, database/sql behaviour and timing are observed under forced schedules, not proved; view updates in flight are not covered."),
  "C17": claim("Proved: every single-row entry point either changes no row or raises the addressed key's revSeqNo by exactly one (1 for a key "
               "without a row), live and backfill events and the virtual xattrs report the stored number. Compound calls via correspondence + monitor."),
 }
